@@ -421,3 +421,21 @@ def chk_solution(out, bad, op, y, Ad, b0, x0, I, D, fname):
     scale = np.abs(Ad[I]) @ np.abs(y) + np.abs(b0[I]) + 1
     if np.any(np.abs(res) > 1e-9 * scale):
         bad(op, 'kept-equations', f"residual on kept rows {res.tolist()}", fname)
+
+
+def replay(rec, tier, seed):
+    """Re-run all operations on the single recorded system / index split (no enumeration)."""
+    c = rec['case']
+    n = c['n']
+    A0 = sp.csr_matrix((np.array(c['data'], dtype=np.float64), np.array(c['indices'], dtype=np.int32),
+                        np.array(c['indptr'], dtype=np.int32)), shape=(n, n))
+    Ad = np.array(c['A'], dtype=np.int64)
+    stored = [[False] * n for _ in range(n)]
+    for i in range(n):
+        for k in range(A0.indptr[i], A0.indptr[i + 1]):
+            stored[i][A0.indices[k]] = True
+    given = 'D' if 'D' in c else 'I'
+    out = Out()
+    warnings.simplefilter('ignore')
+    run_case(out, n, c['pattern'], c['variant'], A0, Ad, stored, tuple(c[given]), given, rec.get('seed', seed))
+    return out
